@@ -127,7 +127,7 @@ def function_interpolate(function, x, eps = 1e-9, start_tens = None, nswp = 20, 
         return torchtt.TT(function(x.full())).to(device)
 
     if eval_mv and len(N)==1:
-        return torchtt.TT(function(x[0].full())).to(device)
+        return torchtt.TT(function(tn.reshape(x[0].full(), [-1, 1]))).to(device)
                  
     d = len(N)
     
